@@ -18,6 +18,13 @@ type lineLimitReader struct {
 	curLineLength int
 }
 
+// setLimit changes the limit. Octets seen before the change (read ahead while
+// another limit applied) are not held against the next line.
+func (r *lineLimitReader) setLimit(limit int) {
+	r.LineLimit = limit
+	r.curLineLength = 0
+}
+
 // exceeded reports whether the current line has outgrown the limit. It is
 // sticky, and safe to call on a nil reader.
 func (r *lineLimitReader) exceeded() bool {
